@@ -145,6 +145,7 @@ var floatKinds = map[string]reflect.Type{
 var times = map[string]time.Time{
 	"jan1":  time.Date(2014, 1, 1, 0, 0, 0, 0, time.UTC),
 	"nov10": time.Date(2009, 11, 10, 23, 4, 5, 0, time.FixedZone("", 3600)),
+	"leap":  time.Date(2020, 2, 29, 12, 34, 56, 789000000, time.UTC),
 }
 
 // the layouts behind the spec's names of time formats
